@@ -186,6 +186,10 @@ pub enum Step {
     /// once it finally gets the request): the peer has stopped reading, so the driver is stuck writing the
     /// request when the caller's timeout fires; the writes are released 300 ms later
     TimeoutWhileWriteStalled(u8, bool),
+    /// a sent single operation times out while the driver is stuck writing ANOTHER handle's request;
+    /// its reply (after this many ms, before the 100 ms deadline) and its ID-scrub notice are both
+    /// waiting when the driver gets going again, to be handled in whichever order it picks
+    TimeoutBehindStalledWrite(u64),
     AbandonFinished,
     AbandonTimedOut,
     AbandonInflight,
@@ -215,6 +219,7 @@ impl Step {
             Step::TimeoutWhileWriteStalled(0, _) => "single-op-timeout-while-the-request-is-being-written",
             Step::TimeoutWhileWriteStalled(1, _) => "stream-start-timeout-while-the-request-is-being-written",
             Step::TimeoutWhileWriteStalled(..) => "search()-timeout-while-the-request-is-being-written",
+            Step::TimeoutBehindStalledWrite(_) => "single-op-timeout-whose-reply-and-id-scrub-reach-the-busy-driver-together",
             Step::AbandonFinished => "abandon-of-finished-op",
             Step::AbandonTimedOut => "abandon-of-timed-out-op",
             Step::AbandonInflight => "abandon-of-inflight-op",
@@ -226,7 +231,8 @@ impl Step {
 }
 
 pub fn gen_step(rng: &mut Rng) -> Step {
-    match rng.below(15) {
+    match rng.below(16) {
+        15 => Step::TimeoutBehindStalledWrite(*rng.pick(&[0u64, 20, 50, 99, 100, 150, 299])),
         14 => Step::TimeoutWhileWriteStalled(rng.below(3) as u8, rng.bool()),
         13 => {
             let p = 1 + rng.usize(5);
@@ -382,6 +388,26 @@ pub async fn run_step(ldap: &mut Ldap, other: &mut Ldap, step: &Step, tok: u64, 
                 },
             };
             let _ = rel.await;
+        }
+        Step::TimeoutBehindStalledWrite(d) => {
+            let mut l2 = ldap.clone();
+            l2.with_timeout(Duration::from_millis(100));
+            let dn = format!("op={},b=late{}", tok, d);
+            let a = tokio::spawn(async move { world::watchdog(invoke(&mut l2, &Call::Delete { dn })).await.unwrap_or(Outcome::Hung).class() });
+            // the request is on the wire; now the peer stops reading and another handle's request gets stuck
+            world::settle().await;
+            ctl.stall_writes_after(0);
+            let mut l3 = other.clone();
+            let dn = format!("op={},b=normal", tok);
+            let b = tokio::spawn(async move { world::watchdog(invoke(&mut l3, &Call::Delete { dn })).await.unwrap_or(Outcome::Hung).class() });
+            tokio::time::sleep(Duration::from_millis(300)).await;
+            ctl.release_writes();
+            let ao = a.await.unwrap_or_else(|_| "task-died".into());
+            let bo = b.await.unwrap_or_else(|_| "task-died".into());
+            obs.outcome = format!("{}+{}", ao, bo);
+            if bo != "Ok" {
+                obs.outcome = format!("HUNG-or-failed:{}", obs.outcome);
+            }
         }
         Step::AbandonInflightZeroTimeout => {
             let mut l2 = ldap.clone();
